@@ -517,6 +517,11 @@ func normSig(fset *token.FileSet, ft *ast.FuncType) string {
 }
 
 // castsFile declares the named types the descriptor refers to through casttype / customtype.
+// predeclared Go types a casttype may name: nothing to declare (and nothing to qualify) for them
+var predeclared = map[string]bool{"int": true, "int8": true, "int16": true, "int32": true, "int64": true, "uint": true, "uint8": true,
+	"uint16": true, "uint32": true, "uint64": true, "uintptr": true, "byte": true, "rune": true, "float32": true, "float64": true,
+	"bool": true, "string": true}
+
 func castsFile(d absd.Desc) string {
 	var b strings.Builder
 	b.WriteString("package " + d.Pkg + "\n\n")
@@ -553,7 +558,7 @@ func castsFile(d absd.Desc) string {
 	for _, m := range msgs {
 		for _, f := range m.Fields {
 			for _, n := range []string{f.Cast, f.Custom} {
-				if n == "" || strings.Contains(n, ".") || seen[n] {
+				if n == "" || strings.Contains(n, ".") || seen[n] || predeclared[n] {
 					continue
 				}
 				seen[n] = true
@@ -684,32 +689,47 @@ func (e *Env) Build(res []*GenResult) (driver string, err error) {
 	}
 	// only the packages of THIS set of runs: the work space is shared by the families of one check, and a package
 	// an earlier family found broken (and reported) is not this family's business
-	args := []string{"build"}
-	seenPkg := map[string]bool{}
-	for _, r := range withCode {
-		for _, p := range []string{r.TargetImport, r.StructImport} {
-			if p != "" && !seenPkg[p] {
-				seenPkg[p] = true
-				args = append(args, p)
+	// (the go command reports the load errors of ONE package only and stops: build again without the packages
+	// already found broken until what is left builds or fails in the ordinary way, with "# pkg" headers)
+	for round := 0; round <= len(withCode); round++ {
+		args := []string{"build"}
+		seenPkg := map[string]bool{}
+		for _, r := range withCode {
+			if r.Compile != "" {
+				continue
+			}
+			for _, p := range []string{r.TargetImport, r.StructImport} {
+				if p != "" && !seenPkg[p] {
+					seenPkg[p] = true
+					args = append(args, p)
+				}
 			}
 		}
-	}
-	if len(args) == 1 {
-		args = append(args, "./...")
-	}
-	so, se, ex, err := run(e.WS, e.GoEnv, nil, "go", args...)
-	if err != nil {
-		return "", err
-	}
-	if ex != 0 {
-		out := string(so) + string(se)
-		// attribute error blocks to packages
-		idx := rePkgHeader.FindAllStringSubmatchIndex(out, -1)
-		if len(idx) == 0 {
-			// errors found while loading packages (an import that does not exist ...) come without a "# pkg"
-			// header: attribute every line to the package of the file it names
+		if len(args) == 1 {
+			if round > 0 {
+				break
+			}
+			args = append(args, "./...")
+		}
+		so, se, ex, err := run(e.WS, e.GoEnv, nil, "go", args...)
+		if err != nil {
+			return "", err
+		}
+		if ex == 0 {
+			break
+		}
+		{
+			out := string(so) + string(se)
+			// attribute error blocks to packages
+			idx := rePkgHeader.FindAllStringSubmatchIndex(out, -1)
+			// errors found while loading packages (an import that does not exist ...) come without a "# pkg" header,
+			// before the first header if there is one: attribute every such line to the package of the file it names
+			head := out
+			if len(idx) > 0 {
+				head = out[:idx[0][0]]
+			}
 			attributed := false
-			for _, line := range strings.Split(out, "\n") {
+			for _, line := range strings.Split(head, "\n") {
 				m := reFileLine.FindStringSubmatch(line)
 				if m == nil {
 					continue
@@ -722,26 +742,29 @@ func (e *Env) Build(res []*GenResult) (driver string, err error) {
 					}
 				}
 			}
-			if !attributed {
+			if len(idx) == 0 && !attributed {
 				return "", fmt.Errorf("go build failed without package attribution:\n%s", out)
 			}
-		}
-		for i, m := range idx {
-			pkg := out[m[2]:m[3]]
-			end := len(out)
-			if i+1 < len(idx) {
-				end = idx[i+1][0]
-			}
-			block := out[m[0]:end]
-			hit := false
-			for _, r := range withCode {
-				if pkg == r.TargetImport || pkg == r.StructImport {
-					r.Compile += block
-					hit = true
+			for i, m := range idx {
+				pkg := out[m[2]:m[3]]
+				end := len(out)
+				if i+1 < len(idx) {
+					end = idx[i+1][0]
+				}
+				block := out[m[0]:end]
+				hit := false
+				for _, r := range withCode {
+					if pkg == r.TargetImport || pkg == r.StructImport {
+						r.Compile += block
+						hit = true
+					}
+				}
+				if !hit {
+					return "", fmt.Errorf("go build failed in a non-generated package %s:\n%s", pkg, block)
 				}
 			}
-			if !hit {
-				return "", fmt.Errorf("go build failed in a non-generated package %s:\n%s", pkg, block)
+			if len(idx) > 0 || !attributed {
+				break // ordinary compile errors: every failing package was reported in this run
 			}
 		}
 	}
@@ -763,7 +786,7 @@ func (e *Env) Build(res []*GenResult) (driver string, err error) {
 		return "", err
 	}
 	driver = filepath.Join(e.W, "bin", "driver")
-	so, se, ex, err = run(e.WS, e.GoEnv, nil, "go", "build", "-o", driver, "./cmd/driver")
+	so, se, ex, err := run(e.WS, e.GoEnv, nil, "go", "build", "-o", driver, "./cmd/driver")
 	if err != nil || ex != 0 {
 		return "", fmt.Errorf("linking the driver failed: %v\n%s%s", err, so, se)
 	}
